@@ -190,11 +190,12 @@ func (p *Provider) ruleSetsChanged(evt fsnotify.Event) error {
 
 	var err error
 
-	switch {
-	case evt.Has(fsnotify.Create) || evt.Has(fsnotify.Write) || evt.Has(fsnotify.Chmod):
+	// every event is only a hint that the file has to be looked at again: a Rename is all that is
+	// delivered if a file is moved away, and a Remove may be stale if the file has been re-created
+	// in between. ruleSetCreatedOrUpdated unloads the rule set if the file does not exist (any more).
+	if evt.Has(fsnotify.Create) || evt.Has(fsnotify.Write) || evt.Has(fsnotify.Chmod) ||
+		evt.Has(fsnotify.Remove) || evt.Has(fsnotify.Rename) {
 		err = p.ruleSetCreatedOrUpdated(evt.Name)
-	case evt.Has(fsnotify.Remove):
-		err = p.ruleSetDeleted(evt.Name)
 	}
 
 	return err
